@@ -57,13 +57,13 @@ package metric
 //@ # ---- family grouping: a group is exactly the rows whose timestamps lie in the family of its first row ---
 //@ predicate famItrOK(itr *BrokerBatchShardFamilyIterator) bool = itr.intervalCalc != nil && itr.groupStart >= 0 && itr.groupStart <= itr.groupEnd && itr.groupEnd <= len(itr.rows) && forall(i, 0, len(itr.rows), tsOK(metricTs(itr.rows[i].m)))
 //@ func BrokerBatchShardFamilyIterator.familyTimeOfTimestamp
-//@   prop C16
+//@   prop C13 C16
 //@   arith math
 //@   requires itr.intervalCalc != nil && tsOK(timestamp)
 //@   ensures result == kFamilyTime(calc_kind(itr.intervalCalc), timestamp) && kindOK(calc_kind(itr.intervalCalc))
 //@ end
 //@ func BrokerBatchShardFamilyIterator.timeRangeOfTimestamp
-//@   prop C16
+//@   prop C13 C16
 //@   arith math
 //@   requires itr.intervalCalc != nil && tsOK(timestamp)
 //@   apply k_compose(calc_kind(itr.intervalCalc), timestamp)
@@ -72,7 +72,7 @@ package metric
 //@   ensures[contains_the_timestamp] result.Start <= timestamp && timestamp <= result.End
 //@ end
 //@ func BrokerBatchShardFamilyIterator.HasNextFamily
-//@   prop C16
+//@   prop C13 C16
 //@   arith math
 //@   requires famItrOK(itr)
 //@   requires itr.sameFamily ==> (len(itr.rows) > 0 ==> (itr.groupFamilyTime == kFamilyTime(calc_kind(itr.intervalCalc), metricTs(itr.rows[0].m)) && forall(i, 0, len(itr.rows), kFamilyTime(calc_kind(itr.intervalCalc), metricTs(itr.rows[0].m)) <= metricTs(itr.rows[i].m) && metricTs(itr.rows[i].m) <= kFamilyEnd(calc_kind(itr.intervalCalc), kFamilyTime(calc_kind(itr.intervalCalc), metricTs(itr.rows[0].m))))))
@@ -87,7 +87,7 @@ package metric
 //@   loop 1 invariant forall(i, itr.groupStart, itr.groupEnd, itr.groupFamilyTime <= metricTs(itr.rows[i].m) && metricTs(itr.rows[i].m) <= kFamilyEnd(calc_kind(itr.intervalCalc), itr.groupFamilyTime))
 //@ end
 //@ func BrokerBatchShardFamilyIterator.NextFamily
-//@   prop C16
+//@   prop C13 C16
 //@   arith math
 //@   requires itr.groupStart >= 0 && itr.groupStart <= itr.groupEnd && itr.groupEnd <= len(itr.rows)
 //@   ensures familyTime == itr.groupFamilyTime && len(rows) == itr.groupEnd - itr.groupStart && forall(i, 0, len(rows), rows[i] == itr.rows[itr.groupStart + i])
@@ -122,7 +122,7 @@ package metric
 //@   loop 1 invariant forall(i, high, len(m.Tags), !tag.strLess(m.Tags[i].Key, m.Tags[i - 1].Key)) && (high < len(m.Tags) ==> !tag.strLess(m.Tags[high].Key, m.Tags[slow].Key))
 //@ end
 //@ func BrokerBatchShardFamilyIterator.isSameFamily
-//@   prop C16
+//@   prop C13 C16
 //@   arith math
 //@   requires itr.intervalCalc != nil && forall(i, 0, len(itr.rows), tsOK(metricTs(itr.rows[i].m)))
 //@   modifies itr.groupFamilyTime
